@@ -87,7 +87,11 @@ func (k *Keeper) NewEVM(
 			}
 
 			metadata := contract.GetMetadata()
-			contracts = append(contracts, corevm.NewCustomPrecompiledContract(common.BytesToAddress(metadata.Address), methods, metadata.Name))
+			precompiledContract := corevm.NewCustomPrecompiledContract(common.BytesToAddress(metadata.Address), methods, metadata.Name)
+			if metadata.Disabled {
+				precompiledContract = precompiledContract.(*corevm.CustomPrecompiledContract).WithDisabled(true)
+			}
+			contracts = append(contracts, precompiledContract)
 		}
 		evm = evm.WithCustomPrecompiledContracts(contracts...)
 	}
